@@ -6,7 +6,7 @@
 import numpy as np
 
 from vf import gen, ops as O
-from vf.compare import compare_op, align_to
+from vf.compare import signed_scale, compare_op, align_to
 from vf.checks.c05 import ties
 
 EXACT_PARTS = {"ptm1", "ptm2", "ptm3", "ptm4", "bbox"}
@@ -25,7 +25,7 @@ def run(ctx):
 
     ops = O.build()
     names = [n for n in ops if n != "hmax"]
-    for i, rng in ctx.cases("datasets", ctx.n(220, 8000)):
+    for i, rng in ctx.cases("datasets", ctx.n(220, 5000)):
         one(ctx, rng, xr, ops, names)
     for i, rng in ctx.cases("fits", ctx.n(64, 1500)):
         fits(ctx, rng, xr)
@@ -180,7 +180,7 @@ def one(ctx, rng, xr, ops, names):
                 Rp = R.isel(idx)
                 # peak statistics are documented float32 results whatever the input width
                 ok, det = compare_op(op, r1, Rp, f32, rtol=(1e-5 if (op.peak or f32) else 1e-12),
-                                     circ_atol=(1e-3 if (op.peak or f32) else 1e-9))
+                                     circ_atol=(1e-3 if (op.peak or f32) else 1e-9), scale=signed_scale(op, x.isel(idx)))
                 if ok is None:
                     rec.skip(name, "cancellation")
                 elif ok:
